@@ -258,7 +258,7 @@ class RuleGen:
                 r4 = rng.random()
                 if r4 < 0.3 and self.allow_def:
                     return [self.new_cap("x")]
-                return ["@any" if r4 < 0.3 + f.any * 2 else self.decoy_operand()]
+                return ["@any" if (f.any > 0 and r4 < 0.3 + f.any * 2) else self.decoy_operand()]
             return None
         n = rng.randint(1, len(ops))
         # $and_any_order over two operands
